@@ -12,7 +12,7 @@ use lib::lang::CharClass;
 use lib::verif::{DamerauLevenshtein, Jaccard};
 use lib::{Lang, TextOwn};
 
-use crate::exec::{Exec, F_LONG_SHORT};
+use crate::exec::{Exec, F_LONG_SHORT, F_PREEMPT};
 use crate::ops::Op;
 
 thread_local! {
@@ -496,6 +496,103 @@ pub fn step(ex: &mut Exec, ix: usize, op: &Op) {
             }
             if got == "true renamed=false" || got == "false renamed=true" {
                 ex.viol("C17", "C17.prefilter_relabel", ix, "", format!("jaccard pre-filter({:?},{:?}) = {}", r, q, got), "the same verdict after renaming every character consistently (a set similarity sees only which characters are equal)".into());
+            }
+        }
+        Op::Preempt { t, t2, jac, r, q, fin, r2, q2, fin2, at } => {
+            if ex.thread(*t).is_none() || ex.thread(*t2).is_none() {
+                return;
+            }
+            ex.out.executed += 1;
+            let jac = *jac;
+            // one whole call of the word matcher (or of its set pre-filter alone) as a caller makes it
+            let call = move |r: String, q: String, fin: bool| {
+                move || {
+                    let lang = Lang::new();
+                    let rt = lib::tokenization::tokenize_record(&r, &lang);
+                    let qt = lib::tokenize_query(&q, &lang).fin(fin);
+                    if rt.words.is_empty() || qt.words.is_empty() {
+                        return "no-word".to_string();
+                    }
+                    if jac {
+                        format!("{}", lib::verif::jaccard_check(&rt.view(0), &qt.view(0)))
+                    } else {
+                        format!("{:?}", lib::verif::word_match(&rt.view(0), &qt.view(0)))
+                    }
+                }
+            };
+            let blocked = crate::kernel::PREEMPT_BLOCKED.load(std::sync::atomic::Ordering::SeqCst);
+            let (res1, res2, site) = if *t == *t2 || blocked {
+                // one caller thread (or preemption switched off): the two calls one after the other
+                let a = ex.thread(*t).unwrap().run(call(r.clone(), q.clone(), *fin));
+                let b = ex.thread(*t2).unwrap().run(call(r2.clone(), q2.clone(), *fin2));
+                (a, b, None)
+            } else {
+                let at = *at;
+                let inner = call(r.clone(), q.clone(), *fin);
+                let first = move || {
+                    let mut seen = 0usize;
+                    lib::verif::set_sched_hook(Some(Box::new(move |site| {
+                        seen += 1;
+                        if seen == at {
+                            crate::kernel::park_here(site);
+                        }
+                    })));
+                    // the hook is removed even if the call panics
+                    struct Unhook;
+                    impl Drop for Unhook {
+                        fn drop(&mut self) {
+                            lib::verif::set_sched_hook(None);
+                        }
+                    }
+                    let _unhook = Unhook;
+                    inner()
+                };
+                let (ta, tb) = (ex.thread(*t).unwrap(), ex.thread(*t2).unwrap());
+                ta.run_preempted(first, tb, call(r2.clone(), q2.clone(), *fin2), std::time::Duration::from_secs(5))
+            };
+            let mut got = Vec::new();
+            for res in [res1, res2] {
+                match res {
+                    Ok(x) => got.push(x),
+                    Err(p) => {
+                        ex.rec(ix, op, &p.render());
+                        ex.panicked(ix, &p);
+                        return;
+                    }
+                }
+            }
+            ex.rec(ix, op, &format!("{} | {} parked={}", got[0], got[1], site.unwrap_or("-")));
+            if site.is_some() {
+                ex.out.faults[F_PREEMPT] += 1;
+                ex.out.nontrivial = true;
+                ex.note_state(&[13, jac as u64, (site == Some("damlev.row")) as u64, (*at).min(6) as u64, (r.chars().count().min(80) / 8) as u64, (r2.chars().count().min(80) / 8) as u64]);
+            }
+            for (tt, rr, qq) in [(*t, r, q), (*t2, r2, q2)] {
+                let longer = rr.chars().count().max(qq.chars().count());
+                if longer > ex.capacity().unwrap_or(20) {
+                    ex.scratch_grew[tt] = true;
+                }
+                ex.scratch_prev_len[tt] = longer;
+            }
+            let prop = if jac { "C17" } else { "C16" };
+            if !ex.on_prop(prop) {
+                return;
+            }
+            let oracle = if jac { "C17.prefilter_preempted" } else { "C16.word_match_preempted" };
+            for (k, (rr, qq, ff)) in [(r, q, *fin), (r2, q2, *fin2)].into_iter().enumerate() {
+                ex.out.evals += 1;
+                let what = if k == 0 { "the call parked mid-way" } else { "the call made while another caller thread was parked mid-call" };
+                match ex.pristine_ref(call(rr.clone(), qq.clone(), ff)) {
+                    Ok(want) if want == got[k] => {}
+                    Ok(want) => {
+                        ex.viol(prop, oracle, ix, "", format!("{}: ({:?},{:?}) = {}", what, rr, qq, got[k]), format!("{} on a thread that compared nothing before, alone", want));
+                        return;
+                    }
+                    Err(p) => {
+                        ex.viol(prop, if jac { "C17.reference_panic" } else { "C16.reference_panic" }, ix, &p.loc, got[k].clone(), p.render());
+                        return;
+                    }
+                }
             }
         }
         Op::WMatch { t, r, q, fin } => {
